@@ -2,31 +2,31 @@ INIT GenInit
 NEXT GenNext
 CONSTANTS
   Req = {"r1", "r2", "r3"}
-  Keys = {"k1"}
-  Disp = {"d1"}
+  Keys = {"k1", "k2", "k3"}
+  Disp = {"d1", "d2"}
   Purgers = {}
   HasStore <- MC_HasStore
   Limit <- MC_Limit
   ShardOf <- MC_ShardOf
   HfpTTL <- MC_HfpTTL
-  Methods = {"GET", "POST"}
-  TTLs = {1}
+  Methods = {"GET"}
+  TTLs = {1, 2}
   Outcomes = {"cacheable", "uncacheable", "error"}
-  LoadResults = {}
+  LoadResults = {"ok", "notfound"}
   SaveResults = {TRUE}
   Jumps = {1}
   MaxTicks = 4
-  MaxStarts = 6
-  MaxVer = 6
-  MaxEnt = 1
+  MaxStarts = 10
+  MaxVer = 10
+  MaxEnt = 10
   MaxPurges = 0
   MaxKills = 0
-  MaxDrops = 0
+  MaxDrops = 2
   UnnamedPurge = FALSE
   ResumeRelooks = TRUE
   AgeAtDecision = TRUE
   LoadAtomic = TRUE
   PurgeFences = TRUE
   Ghost = TRUE
-  GenDepth = 60
+  GenDepth = 80
 INVARIANT Emit
